@@ -432,10 +432,14 @@ class AsyncWorld:
         async def runner():
             try:
                 if name == 'session_ctx':
-                    async with w.server.session(args[0]) as s:
+                    cm = w.server.session(args[0])
+                    await asyncio.sleep(0)
+                    async with cm as s:
+                        await asyncio.sleep(0)
                         if len(args) > 1:
                             s.update(args[1])
                         c.result = dict(s)
+                        await asyncio.sleep(0)
                 else:
                     r = getattr(w.server, name)(*args)
                     if asyncio.iscoroutine(r):
